@@ -54,9 +54,18 @@ static void c03_cut(World *w, Buf *b, int pos, int variant) {
     if (snap_take(&s, w)) { tr("cut pos=%d snap=fail", pos); return; }
     uint8_t d1[32], d2[32]; Rsp sr = {0};
     int mode = variant == 0 ? 1 : (variant == 1 ? 2 : 3);
+    w_enable_hierarchies(w, b);
     /* free the transient object slots so that persistent objects can be referenced (the snapshot is restored afterwards) */
     for (int i = 0; i < w->nobj; i++) { cmd_begin(b, ST_NO_SESSIONS, CC_FlushContext); b_u32(b, w->obj[i].h); run(b); }
+    { /* and whatever transient object the client view lost track of */
+      cmd_begin(b, ST_NO_SESSIONS, CC_GetCapability); b_u32(b, 1); b_u32(b, 0x80000000u); b_u32(b, 8); Rsp hr = run(b);
+      if (hr.rc == 0 && hr.len >= 19) { uint32_t cnt = g32(hr.p + 15), hs[8]; if (cnt > 8) cnt = 8; for (uint32_t i = 0; i < cnt; i++) hs[i] = g32(hr.p + 19 + 4 * i);
+          for (uint32_t i = 0; i < cnt; i++) { cmd_begin(b, ST_NO_SESSIONS, CC_FlushContext); b_u32(b, hs[i]); run(b); } } }
     for (int i = 0; i < w->nseq; i++) { cmd_begin(b, ST_NO_SESSIONS, CC_FlushContext); b_u32(b, w->seq[i].h); run(b); }
+    for (int i = 0; i < w->nsess; i++) { cmd_begin(b, ST_NO_SESSIONS, CC_FlushContext); b_u32(b, w->sess[i].h); run(b); }   /* the battery needs a session slot */
+    { cmd_begin(b, ST_NO_SESSIONS, CC_GetCapability); b_u32(b, 1); b_u32(b, 0x02000000u); b_u32(b, 8); Rsp hr = run(b);
+      if (hr.rc == 0 && hr.len >= 19) { uint32_t cnt = g32(hr.p + 15), hs[8]; if (cnt > 8) cnt = 8; for (uint32_t i = 0; i < cnt; i++) hs[i] = g32(hr.p + 19 + 4 * i);
+          for (uint32_t i = 0; i < cnt; i++) { cmd_begin(b, ST_NO_SESSIONS, CC_FlushContext); b_u32(b, hs[i]); run(b); } } }
     if (variant) { sr = tpm2_shutdown(b, variant == 1 ? 0 : 1);     /* 1: Shutdown(CLEAR)  2: Shutdown(STATE) */
         if (sr.rc != 0) { variant = 0; mode = 1; } }                 /* e.g. Shutdown(STATE) refused after PCR_Allocate: plain power cut */
     battery(w, b, mode, d1);
@@ -76,6 +85,7 @@ static void c03_cut(World *w, Buf *b, int pos, int variant) {
     snap_free(&s);
 }
 static void scen_c03(int histories, int maxops, int cut_pct) {
+    g_gen_host_rng_ok = 1;
     Buf b = {0}; World w; memset(&w, 0, sizeof w);
     Blob img0 = {0}, img1 = {0};
     for (int h = 0; h < histories; h++) {
@@ -96,7 +106,12 @@ static void scen_c03(int histories, int maxops, int cut_pct) {
             int eq = g_store[ST_PERM].present ? perm_equal_masked(img1.p, img1.n, g_store[ST_PERM].p, g_store[ST_PERM].n) : -2;
             int exact = g_store[ST_PERM].present && img1.n == g_store[ST_PERM].n && !memcmp(img1.p, g_store[ST_PERM].p, img1.n);
             tr("c cc=%x rc=%u stores=%ld changed=%d eq=%d exact=%d", w.last_cc, w.last_rc, w.last_stores, changed == 0 ? 1 : (changed == 1 ? 0 : -1), eq, exact);
-            if (chance(cut_pct)) c03_cut(&w, &b, i, rnd(3));
+            /* commands that change seeds, proofs, enables, audit or PP configuration keep a copy in RAM and one in NV memory: only
+               a restart shows whether the NV copy was updated, so a cut mostly follows them at once */
+            int admin = w.last_rc == 0 && (w.last_cc == CC_Clear || w.last_cc == CC_ChangeEPS || w.last_cc == CC_ChangePPS || w.last_cc == CC_HierarchyControl ||
+                        w.last_cc == CC_SetCommandCodeAuditStatus || w.last_cc == CC_PP_Commands || w.last_cc == CC_SetPrimaryPolicy || w.last_cc == CC_ClearControl ||
+                        w.last_cc == CC_HierarchyChangeAuth || w.last_cc == CC_DictionaryAttackParameters);
+            if (chance(admin ? 70 : cut_pct)) c03_cut(&w, &b, i, admin && chance(70) ? 0 : rnd(3));
         }
         c03_cut(&w, &b, n, 0);
         /* drill: a counter is incremented and then deleted; its high-water mark must survive the power cut that follows */
@@ -265,6 +280,7 @@ static void c05_cancel(World *w, Buf *b, int k) {
     c02_world_free(&wc); blob_clear(&img0); blob_clear(&img1); b_free(&t);
 }
 static void scen_c05(int histories, int maxops, int ncancel) {
+    g_gen_host_rng_ok = 0;
     Buf b = {0}, last = {0}; World w; memset(&w, 0, sizeof w);
     for (int h = 0; h < histories; h++) {
         tr("hist %d", h); w_reset(&w);
@@ -295,6 +311,7 @@ static int c07_fingerprint(Buf *b, uint8_t out[34]) {
     return n;
 }
 static void scen_c07(int histories, int maxops) {
+    g_gen_host_rng_ok = 1;
     Buf b = {0}; World w; memset(&w, 0, sizeof w);
     for (int h = 0; h < histories; h++) {
         tr("hist %d", h); w_reset(&w);
